@@ -81,6 +81,9 @@ def fmt_num(v, style=0):
     return r
 
 
+INT_DELAY_STYLE = [False]
+
+
 def to_str(e, pow_sym='**', sp=' ', paren=False, numstyle=0, rnd=None, top=True):
     """Print expression.  paren: add redundant parentheses around every binary node.
     rnd: optional random.Random to vary spacing/parens per node."""
@@ -96,6 +99,12 @@ def to_str(e, pow_sym='**', sp=' ', paren=False, numstyle=0, rnd=None, top=True)
     if k == 'var':
         return e[1]
     if k == 'call':
+        if e[1] == 'past' and len(e) == 4 and e[3][0] == 'num' and float(e[3][1]) == int(e[3][1]) and INT_DELAY_STYLE[0]:
+            # a whole-number delay written the way users write it: x(t-10), past(x, 10)
+            dtxt = str(int(e[3][1]))
+            if PAST_STYLE[0] == 't-':
+                return f"{e[2][1]}(t-{dtxt})"
+            return f"past({to_str(e[2], pow_sym, sp, paren, numstyle, rnd, True)},{sp if sp else ''}{dtxt})"
         if e[1] == 'past' and PAST_STYLE[0] == 't-':
             return f"{e[2][1]}(t-{to_str(e[3], pow_sym, sp, paren, numstyle, rnd, True)})"
         args = (',' + (sp if sp else '')).join(to_str(a, pow_sym, sp, paren, numstyle, rnd, True) for a in e[2:])
